@@ -1,28 +1,15 @@
 /-
-  Certificate obligations, parts 8..15 of 64 of the `current` client system (kernel evaluation; 8 modules
-  so that lake checks them in parallel; small parts keep the kernel's memory small).
-  Assembled in `Lemmas/CliCert.lean`.
+  Certificate obligations, parts 2..3 of 16 of the `current` client system (kernel evaluation; 8 modules
+  so that lake checks them in parallel). Assembled in `Lemmas/CliCert.lean`.
 -/
 import KmipModel.Model.CliConn
 import KmipModel.Gen.CertCliConn
 namespace Kmip.CliCert
 open Kmip.CliLts Kmip.CliConn Kmip.Gen.CertCliConn
 
-theorem cuClosed8 : partClosed (sys current) codec certCurrent cuP8 = true := by decide +kernel
-theorem cuSafe8 : partSafe codec (badPartial current) cuP8 = true := by decide +kernel
-theorem cuClosed9 : partClosed (sys current) codec certCurrent cuP9 = true := by decide +kernel
-theorem cuSafe9 : partSafe codec (badPartial current) cuP9 = true := by decide +kernel
-theorem cuClosed10 : partClosed (sys current) codec certCurrent cuP10 = true := by decide +kernel
-theorem cuSafe10 : partSafe codec (badPartial current) cuP10 = true := by decide +kernel
-theorem cuClosed11 : partClosed (sys current) codec certCurrent cuP11 = true := by decide +kernel
-theorem cuSafe11 : partSafe codec (badPartial current) cuP11 = true := by decide +kernel
-theorem cuClosed12 : partClosed (sys current) codec certCurrent cuP12 = true := by decide +kernel
-theorem cuSafe12 : partSafe codec (badPartial current) cuP12 = true := by decide +kernel
-theorem cuClosed13 : partClosed (sys current) codec certCurrent cuP13 = true := by decide +kernel
-theorem cuSafe13 : partSafe codec (badPartial current) cuP13 = true := by decide +kernel
-theorem cuClosed14 : partClosed (sys current) codec certCurrent cuP14 = true := by decide +kernel
-theorem cuSafe14 : partSafe codec (badPartial current) cuP14 = true := by decide +kernel
-theorem cuClosed15 : partClosed (sys current) codec certCurrent cuP15 = true := by decide +kernel
-theorem cuSafe15 : partSafe codec (badPartial current) cuP15 = true := by decide +kernel
+theorem cuClosed2 : partClosed (sys current) codec certCurrent cuP2 = true := by decide +kernel
+theorem cuSafe2 : partSafe codec (bad current) cuP2 = true := by decide +kernel
+theorem cuClosed3 : partClosed (sys current) codec certCurrent cuP3 = true := by decide +kernel
+theorem cuSafe3 : partSafe codec (bad current) cuP3 = true := by decide +kernel
 
 end Kmip.CliCert
